@@ -1,0 +1,7 @@
+//go:build !verif
+
+package prolog
+
+// Verification hooks (see verif_on.go). Without the build tag "verif" they are no-ops.
+
+func verifSolEvent(*Solutions, string) {}
